@@ -74,8 +74,59 @@ class _Watchdog(threading.Thread):
             time.sleep(1.0)
 
 
+def discover_unwindset(stage_dir, harness, spec, stub, log_path=None):
+    """spec: "<function-substring>:<b1>,<b2>,..;<function-substring>:..." -- per-loop
+    unwind bounds for the loops of a function, in source-line order.  CBMC loop names
+    contain a per-build crate hash, so they are looked up in the compiled goto binary.
+    Unwinding assertions stay on: a wrong bound can only make the run inconclusive."""
+    import glob
+    cmd = ["cargo", "kani", "--only-codegen", "--exact", "--harness", harness.fq]
+    if stub:
+        cmd += ["-Z", "stubbing"]
+    env = dict(os.environ)
+    env.update(KANI_ENV)
+    p = subprocess.run(cmd, cwd=stage_dir, env=env, capture_output=True, text=True)
+    if log_path:
+        with open(log_path, "a") as fh:
+            fh.write("$ " + " ".join(cmd) + "\n" + p.stdout[-2000:] + p.stderr[-4000:] + "\n")
+    outs = [f for f in glob.glob(os.path.join(stage_dir, "target", "kani", "*", "debug", "build", "*", "*", "out", "*%s.out" % harness.name))
+            if not f.endswith(".symtab.out")]
+    if not outs:
+        raise BuildError("codegen produced no goto binary for %s\n%s" % (harness.fq, (p.stdout + p.stderr)[-3000:]))
+    outs.sort(key=os.path.getmtime)
+    q = subprocess.run(["cbmc", "--show-loops", outs[-1]], capture_output=True, text=True)
+    loops = []  # (name, line, function)
+    cur = None
+    for ln in q.stdout.splitlines():
+        m = re.match(r"Loop (\S+):", ln)
+        if m:
+            cur = m.group(1)
+            continue
+        m = re.match(r"\s+file (\S+) line (\d+)(?: column \d+)? function (.*)$", ln)
+        if m and cur:
+            loops.append((cur, int(m.group(2)), m.group(3).strip()))
+            cur = None
+    args = []
+    for part in spec.split(";"):
+        if not part.strip():
+            continue
+        fn, bounds = part.rsplit(":", 1)
+        bounds = [int(b) for b in bounds.split(",")]
+        mine = sorted([l for l in loops if fn in l[2]], key=lambda l: l[1])
+        if len(mine) != len(bounds):
+            # the function's loop structure changed: fall back to the harness-wide bound
+            continue
+        for (name, _, _), b in zip(mine, bounds):
+            args.append("%s:%d" % (name, b))
+    return ",".join(args)
+
+
 def run_group(stage_dir, harnesses, jobs=16, timeout_s=300, stub=False, cbmc_args="",
-              solver="", mem_cap_gb=12, log_path=None, playback=None, tag="g"):
+              solver="", mem_cap_gb=12, log_path=None, playback=None, tag="g", unwindset=""):
+    if unwindset:
+        us = discover_unwindset(stage_dir, harnesses[0], unwindset, stub, log_path)
+        if us:
+            cbmc_args = (cbmc_args + " --unwindset " + us).strip()
     """harnesses: list of meta.Harness.  Returns dict name -> result dict.
 
     playback: None | "inplace" (adds -Z concrete-playback)."""
